@@ -35,17 +35,73 @@ struct Scn {
     k: usize,
 }
 
-fn read_request(s: &mut TcpStream) -> bool {
+fn read_request_head(s: &mut TcpStream) -> Option<String> {
     let mut acc: Vec<u8> = vec![];
     let mut buf = [0u8; 4096];
     loop {
-        if acc.windows(4).any(|w| w == b"\r\n\r\n") {
-            return true;
+        if let Some(p) = acc.windows(4).position(|w| w == b"\r\n\r\n") {
+            return Some(String::from_utf8_lossy(&acc[..p]).to_string());
         }
         match s.read(&mut buf) {
-            Ok(0) | Err(_) => return false,
+            Ok(0) | Err(_) => return None,
             Ok(n) => acc.extend_from_slice(&buf[..n]),
         }
+    }
+}
+
+fn read_request(s: &mut TcpStream) -> bool {
+    read_request_head(s).is_some()
+}
+
+/// fault delay / slow-answer delay (ms) of the `drain_*` scenarios
+fn drain_delays(kind: &str) -> (u64, u64) {
+    match kind {
+        "drain_a" => (300, 800),  // 404 at once, 502 after 300 ms, the healthy answer after 0.8 s (back_timeout is 1 s)
+        "drain_b" => (700, 150),  // the healthy answer completes between the two proxy answers
+        _ => (0, 800),            // drain_c: 404 and 503 at once, the healthy answer after 0.8 s
+    }
+}
+
+/// healthy but slow HTTP/1 backend
+fn slow_backend(listener: TcpListener, delay_ms: u64) {
+    for s in listener.incoming() {
+        let Ok(mut s) = s else { continue };
+        std::thread::spawn(move || {
+            let _ = s.set_read_timeout(Some(Duration::from_secs(10)));
+            while read_request(&mut s) {
+                std::thread::sleep(Duration::from_millis(delay_ms));
+                if s.write_all(b"HTTP/1.1 200 OK\r\nContent-Length: 4\r\n\r\nslow").is_err() {
+                    return;
+                }
+            }
+        });
+    }
+}
+
+/// `cancel_reuse`: the request for /x gets the head of a 100000-byte response and 30000 bytes of it;
+/// the backend then keeps the connection. A request for /y is answered 200 "second" — unless it
+/// arrives on a connection that still owes the rest of response 1: then that rest comes first
+/// (what a server does), which the proxy must never hand to another request.
+fn cancel_reuse_backend(listener: TcpListener) {
+    for s in listener.incoming() {
+        let Ok(mut s) = s else { continue };
+        std::thread::spawn(move || {
+            let _ = s.set_read_timeout(Some(Duration::from_secs(12)));
+            let mut owed = 0usize;
+            while let Some(head) = read_request_head(&mut s) {
+                if owed > 0 {
+                    let _ = s.write_all(&vec![b'T'; owed]);
+                    owed = 0;
+                }
+                if head.contains(" /f") && head.contains("/x ") {
+                    let _ = s.write_all(b"HTTP/1.1 200 OK\r\nContent-Length: 100000\r\n\r\n");
+                    let _ = s.write_all(&vec![b'1'; 30000]);
+                    owed = 70000;
+                } else if s.write_all(b"HTTP/1.1 200 OK\r\nContent-Length: 6\r\n\r\nsecond").is_err() {
+                    return;
+                }
+            }
+        });
     }
 }
 
@@ -102,6 +158,10 @@ fn faulty_backend(listener: TcpListener, scn: Scn, until: Instant) {
                 }
             }
             "stall" => held.push(s),
+            "drain_a" | "drain_b" => {
+                std::thread::sleep(Duration::from_millis(drain_delays(&scn.kind).0));
+                let _ = s.shutdown(Shutdown::Both);
+            }
             "garbage" => {
                 let _ = s.write_all(b"\x00\x01GARBAGE NOT HTTP\r\n\r\n\xff\xfe");
                 held.push(s);
@@ -135,12 +195,28 @@ fn client(front: SocketAddr, scn: Scn) -> (Vec<St>, bool, bool) {
         Some(fault) => format!("/hf/{}/fault/{}", scn.id, fault),
         None => format!("/f{}/x", scn.id),
     };
-    let paths = ["/g1/a".to_string(), middle, "/g2/b".to_string()];
+    let drain = scn.kind.starts_with("drain_");
+    let cancel = scn.kind == "cancel_reuse";
+    let paths = if drain {
+        // two streams that get proxy-generated answers at different moments, one slow healthy stream
+        ["/nf/x".to_string(), middle, format!("/s{}/x", scn.id)]
+    } else {
+        ["/g1/a".to_string(), middle, "/g2/b".to_string()]
+    };
     let mut out = vec![];
     for (i, path) in paths.iter().enumerate() {
+        if cancel && i != 1 {
+            continue;
+        }
         out.extend(frame(T_HEADERS, 0x5, 1 + 2 * i as u32, &request_block(false, path)));
     }
+    if cancel {
+        // only the big download (stream 3) for now; streams 1 and 5 are not used
+        sts[0].end = "unused";
+        sts[2].end = "open";
+    }
     p.send(&out);
+    let mut cancelled = false;
     let mut dec = loona_hpack::Decoder::new();
     let mut goaway = false;
     let mut acc_frames: Vec<Fr> = vec![];
@@ -161,6 +237,9 @@ fn client(front: SocketAddr, scn: Scn) -> (Vec<St>, bool, bool) {
                         }
                     });
                     if let Some(i) = idx {
+                        if status >= 200 && sts[i].status >= 200 {
+                            sts[i].code = 9998; // a second final answer on one stream
+                        }
                         if status >= 200 || sts[i].status == 0 {
                             sts[i].status = status;
                         }
@@ -171,6 +250,14 @@ fn client(front: SocketAddr, scn: Scn) -> (Vec<St>, bool, bool) {
                     }
                 }
                 T_DATA => {
+                    if cancel && f.sid == 3 && !cancelled {
+                        // cancel the download in the middle of its response, then ask the same cluster again
+                        cancelled = true;
+                        let mut o = frame(T_RST, 0, 3, &8u32.to_be_bytes());
+                        o.extend(frame(T_HEADERS, 0x5, 5, &request_block(false, &format!("/f{}/y", scn.id))));
+                        p.send(&o);
+                        sts[1].end = "cancelled";
+                    }
                     if let Some(i) = idx {
                         sts[i].body += f.payload.len();
                         if f.flags & 1 != 0 && sts[i].end == "open" {
@@ -321,9 +408,24 @@ fn main() {
             cluster(&mut w, &id, &prefix, false, None, &mut sent);
             continue;
         }
+        if scn.kind.starts_with("drain_") {
+            let sl = TcpListener::bind("127.0.0.1:0").unwrap();
+            let sa = sl.local_addr().unwrap();
+            let d = drain_delays(&scn.kind).1;
+            std::thread::spawn(move || slow_backend(sl, d));
+            cluster(&mut w, &format!("s{}", scn.id), &format!("/s{}/", scn.id), false, Some(sa), &mut sent);
+            if scn.kind == "drain_c" {
+                cluster(&mut w, &id, &prefix, false, None, &mut sent);
+                continue;
+            }
+        }
         let l = TcpListener::bind("127.0.0.1:0").unwrap();
         let addr = l.local_addr().unwrap();
         cluster(&mut w, &id, &prefix, false, Some(addr), &mut sent);
+        if scn.kind == "cancel_reuse" {
+            std::thread::spawn(move || cancel_reuse_backend(l));
+            continue;
+        }
         if scn.kind == "refuse" {
             drop(l);
         } else {
